@@ -23,23 +23,25 @@ func init() { register(&harness.Prop{ID: "C16", Run: runC16, Variant: "B1+select
 // meekServer is the reference HTTP/1.1 endpoint: it records what arrives and
 // answers 200 with tape-sized slices of the downstream stream.
 type meekServer struct {
-	c         *harness.Ctx
-	sessions  map[string]int
-	upGot     int64 // upstream payload bytes received so far (in request order)
-	downSent  int64 // downstream bytes handed out in completed responses
-	downTotal int64
-	requests  int
-	inFlight  int
-	maxBody   int
-	lastReqAt time.Duration
-	reqAfter  int // requests that arrived after closedAt was set
-	closedAt  time.Duration
-	closed    bool
-	faulty    bool
-	conns     int
-	ending    *bool
-	respPlan  func() int
-	status    func() int
+	c          *harness.Ctx
+	sessions   map[string]int
+	upGot      int64 // upstream payload bytes received so far (in request order)
+	downSent   int64 // downstream bytes handed out in completed responses
+	downTotal  int64
+	requests   int
+	idlePolls  int // consecutive empty exchanges at one virtual instant
+	idlePollAt time.Duration
+	inFlight   int
+	maxBody    int
+	lastReqAt  time.Duration
+	reqAfter   int // requests that arrived after closedAt was set
+	closedAt   time.Duration
+	closed     bool
+	faulty     bool
+	conns      int
+	ending     *bool
+	respPlan   func() int
+	status     func() int
 	// dropAtReq > 0: the connection dies right after the server has consumed
 	// that request, before a single byte of the answer (the body is counted as
 	// received: it was)
@@ -80,6 +82,13 @@ func (m *meekServer) serve(name string, conn *simnet.Conn) {
 		}
 		if req.Method != "POST" {
 			c.Violate("C16/bad-method", "request %d uses method %s", m.requests, req.Method)
+		}
+		// the url argument names the bridge; with a front the connection goes to
+		// the front and the Host header is all that tells it where the request
+		// belongs - a request for any other host never reaches the bridge
+		if req.Host != "meek.example" {
+			c.Violate("C16/request-not-for-the-bridge", "request %d carries Host %q; the url argument names meek.example (a front routes on that header: these bytes would never reach the bridge)", m.requests, req.Host)
+			return
 		}
 		sid := req.Header.Get("X-Session-Id")
 		m.sessions[sid]++
@@ -130,6 +139,22 @@ func (m *meekServer) serve(name string, conn *simnet.Conn) {
 			if rem := m.downTotal - m.downSent; int64(n) > rem {
 				n = int(rem)
 			}
+		}
+		// an idle poll: nothing in the request, nothing in the answer.  A client
+		// that follows one such exchange with the next without letting any time
+		// pass, over and over, is a busy loop across the network
+		if len(body) == 0 && n == 0 && status == 200 {
+			if now := c.S.Now(); m.idlePolls > 0 && now == m.idlePollAt {
+				m.idlePolls++
+			} else {
+				m.idlePolls, m.idlePollAt = 1, now
+			}
+			if m.idlePolls == 200 {
+				c.Violate("spin/meek-polls-without-delay", "meek_lite: %d consecutive empty polls answered with empty bodies at the same virtual instant (%v): the client polls an idle server in a busy loop", m.idlePolls, m.idlePollAt)
+				return
+			}
+		} else {
+			m.idlePolls = 0
 		}
 		out := make([]byte, n)
 		patFill(1, m.downSent, out)
@@ -211,6 +236,9 @@ func runC16(c *harness.Ctx) {
 			return nil, &net.OpError{Op: "dial", Net: "tcp", Err: syscall.ECONNREFUSED}
 		}
 		dials++
+		if want := map[bool]string{false: "meek.example:80", true: "front.example:80"}[front]; addr != want {
+			c.Violate("C16/dialed-wrong-host", "connection %d of the transport goes to %q, expected %q (front=%v)", dials, addr, want, front)
+		}
 		name := fmt.Sprintf("h%d", dials)
 		l := c.Net.NewLink("c", name)
 		for _, p := range []*simnet.Pipe{l.AB, l.BA} {
